@@ -4,7 +4,7 @@
 //! (written by this harness' own encoder) through the real parser.
 
 use rand::{Rng, SeedableRng};
-use scylla::routing::partitioner::{Murmur3Partitioner, Partitioner, PartitionerHasher};
+use scylla::routing::partitioner::{CDCPartitioner, Murmur3Partitioner, Partitioner, PartitionerHasher};
 use scylla::statement::prepared::PreparedStatement;
 use serde_json::{Value, json};
 use std::collections::BTreeSet;
@@ -28,6 +28,17 @@ fn le(token: i64) -> Vec<u8> {
 
 fn hash_with_chunks(data: &[u8], cuts: &[usize]) -> i64 {
     let mut h = Murmur3Partitioner.build_hasher();
+    let mut prev = 0;
+    for &c in cuts {
+        h.write(&data[prev..c]);
+        prev = c;
+    }
+    h.write(&data[prev..]);
+    h.finish().value()
+}
+
+fn cdc_hash_with_chunks(data: &[u8], cuts: &[usize]) -> i64 {
+    let mut h = CDCPartitioner.build_hasher();
     let mut prev = 0;
     for &c in cuts {
         h.write(&data[prev..c]);
@@ -137,15 +148,21 @@ pub fn cmd_run(args: &[String]) -> i32 {
     let mut hash_case = |data: Vec<u8>, rng: &mut rand::rngs::StdRng, out: &mut dyn Write, chunkruns: &mut usize, panics: &mut usize| {
         let r = std::panic::catch_unwind(std::panic::AssertUnwindSafe(|| {
             let mut tokens: BTreeSet<i64> = BTreeSet::new();
+            let mut ctokens: BTreeSet<i64> = BTreeSet::new();
             let cks = chunkings(data.len(), rng);
             for c in &cks {
                 tokens.insert(hash_with_chunks(&data, c));
+                ctokens.insert(cdc_hash_with_chunks(&data, c));
             }
-            (tokens, cks.len())
+            (tokens, ctokens, cks.len())
         }));
         match r {
-            Ok((tokens, k)) => {
-                *chunkruns += k;
+            Ok((tokens, ctokens, k)) => {
+                *chunkruns += 2 * k;
+                // the CDC partitioner's hasher over the same chunkings
+                for t in ctokens.iter() {
+                    writeln!(out, "{}", json!({"kind":"cdchash","data":data,"chunkings":k,"token":le(*t)})).unwrap();
+                }
                 let toks: Vec<Vec<u8>> = tokens.iter().map(|t| le(*t)).collect();
                 // one record per distinct token observed (a single one when chunking does not matter)
                 for t in toks {
